@@ -12,6 +12,7 @@ import (
 	"time"
 
 	atomicx "github.com/pion/ice/v4/internal/atomic"
+	"github.com/pion/ice/v4/internal/verifhook"
 )
 
 // ErrClosed indicates that the loop has been stopped.
@@ -58,8 +59,10 @@ func (l *Loop) runLoop(onClose func()) {
 		case <-l.done:
 			return
 		case t := <-l.tasks:
+			verifhook.Yield("taskloop.runLoop.beforeTask")
 			t.fn(l)
 			close(t.done)
+			verifhook.Yield("taskloop.runLoop.afterTask")
 		}
 	}
 }
@@ -78,6 +81,7 @@ func (l *Loop) CloseWithPreStop(preStop func()) {
 		l.err.Store(ErrClosed)
 
 		close(l.done)
+		verifhook.Yield("taskloop.Close.afterDone")
 		if preStop != nil {
 			preStop()
 		}
@@ -92,6 +96,7 @@ func (l *Loop) Run(ctx context.Context, t func(context.Context)) error {
 		return err
 	}
 	done := make(chan struct{})
+	verifhook.Yield("taskloop.Run.beforeSelect")
 	select {
 	case <-ctx.Done():
 		return ctx.Err()
